@@ -93,9 +93,16 @@ def gen_host(rng):
         out += '.'
     if rng.random() < 0.03:
         out = out + rng.choice(['"', '<', '^', '|', '{', '\x7f', ' ', '　', '_', '~', '!', '$', '*'])
+    if rng.random() < 0.04:
+        # compatibility characters that NFKC / IDNA mapping folds into URL delimiters (fullwidth solidus, question mark,
+        # number sign, care-of sign ...): inside or after a label
+        i = rng.randrange(1, len(out) + 1)
+        out = out[:i] + rng.choice(FOLD_TO_DELIMITER) + out[i:]
     return out
 
 
+FOLD_TO_DELIMITER = ['\uff0f', '\uff1f', '\uff03', '\u2105', '\u2047', '\ufe56', '\ufe5f', '\u2100', '\u2048', '\uff20', '\uff1a',
+                     '\uff3b', '\uff3c', '\uff05']
 INTERIOR_CHARS = [chr(i) for i in range(0x20)] + ['\x1c', '\x1d', '\x1e', '\x1f', '\x7f', '\x85', '\xa0', '\u1680', '\u2028',
                                                      '\u2029', '\u3000', '\u200b', '\ufeff', '\xad']
 
